@@ -38,6 +38,7 @@ REGULAR = {
     "ScipyGamma": lambda: st.fixed_dictionaries(dict(a=fam.logu(1.0, 8), loc=st.just(0.0), scale=fam.logu(0.2, 4))),
     "ScipyGumbelR": lambda: st.fixed_dictionaries(dict(loc=fam.uni(1, 12), scale=fam.logu(0.2, 3))),
     "ScipyRayleigh": lambda: st.fixed_dictionaries(dict(loc=st.just(0.0), scale=fam.logu(0.3, 8))),
+    "ScipyGenExtreme": lambda: st.fixed_dictionaries(dict(c=fam.uni(-0.3, 0.3).map(lambda v: round(v, 3)), loc=fam.uni(2, 12), scale=fam.logu(0.3, 3))),
 }
 FAMS = list(REGULAR.keys())
 CLOSED = {"Normal": 1e-8, "LogNormal": 1e-6, "LogNormalNormFit": 1e-10, "Weibull2p": 1e-3}
@@ -45,6 +46,7 @@ POSITIVE = {
     "Weibull": ["alpha", "beta"], "Weibull2p": ["alpha", "beta"], "LogNormal": ["sigma"], "Normal": ["sigma"],
     "ExponentiatedWeibull": ["alpha", "beta", "delta"], "GeneralizedGamma": ["m", "lambda_"], "VonMises": ["kappa"],
     "LogNormalNormFit": ["mu_norm", "sigma_norm"], "ScipyGamma": ["a", "scale"], "ScipyGumbelR": ["scale"], "ScipyRayleigh": ["scale"],
+    "ScipyGenExtreme": ["scale"],
 }
 
 
@@ -206,6 +208,15 @@ RATE_LIMITS = [
     ("equivariance_quantile:Weibull", "mle/family=Weibull", 0.05, 40),
     ("ll_below_truth:ScipyGamma", "mle/family=ScipyGamma", 0.12, 40),
     ("ll_below_truth_scaled:ScipyGamma", "mle/family=ScipyGamma", 0.20, 40),
+    ("ll_nonfinite:ScipyGenExtreme:user_start", "mle/family=ScipyGenExtreme", 0.04, 40),
+    ("equivariance_ll:ScipyGamma", "mle/family=ScipyGamma", 0.05, 40),
+    ("equivariance_quantile:ScipyGamma", "mle/family=ScipyGamma", 0.05, 40),
+    ("ll_below_truth:ScipyGenExtreme", "mle/family=ScipyGenExtreme", 0.08, 40),
+    ("ll_below_truth_scaled:ScipyGenExtreme", "mle/family=ScipyGenExtreme", 0.12, 40),
+    ("equivariance_ll:ScipyGenExtreme", "mle/family=ScipyGenExtreme", 0.05, 40),
+    ("equivariance_quantile:ScipyGenExtreme", "mle/family=ScipyGenExtreme", 0.08, 40),
+    ("equivariance_ll:GeneralizedGamma:user_start", "mle/family=GeneralizedGamma", 0.04, 40),
+    ("equivariance_quantile:GeneralizedGamma:user_start", "mle/family=GeneralizedGamma", 0.04, 40),
     ("ll_below_truth:GeneralizedGamma:user_start", "mle/family=GeneralizedGamma", 0.08, 40),
     ("ll_below_truth_scaled:GeneralizedGamma:user_start", "mle/family=GeneralizedGamma", 0.08, 40),
     ("ll_below_truth:ExponentiatedWeibull:user_start", "mle/family=ExponentiatedWeibull", 0.04, 40),
